@@ -128,7 +128,9 @@ def main():
         tol = Fraction(1, 10**9)
         if got_s < 0:
             c.violation("negative-uncertainty", f"uncertainty {float(got_s)}", repl)
-        if abs(got_val - want_val) > tol * abs(want_val):
+        # sums and differences are judged at the scale of their operands (x - x of two equal prefixed readings is a rounding residue, not 0)
+        vscale = max(abs(want_val), abs(x), abs(y)) if cs["op"] in ("add", "sub") else abs(want_val)
+        if abs(got_val - want_val) > tol * vscale:
             c.violation(f"measurand:{cs['op']}", f"measurand {float(got_val)}, the plain operation gives {float(want_val)}", repl)
         if abs(got_s**2 - want_sq) > tol * (abs(want_sq) + got_s**2):
             c.violation(f"uncertainty:{cs['op']}", f"uncertainty {float(got_s)}, first-order propagation gives {float(want_sq) ** 0.5}", repl)
